@@ -2486,6 +2486,16 @@ EGLPNUM_TYPENAME_QSLIB_INTERFACE int EGLPNUM_TYPENAME_QScompute_row_norms (
 		goto CLEANUP;
 	}
 
+	/* the norms are computed from the factored basis inside the simplex
+	 * structure: after an edit (or a basis load) there is none that matches
+	 * the problem */
+	if (!p->basis || !p->factorok)
+	{
+		QSlog("no current factored basis, solve first");
+		rval = 1;
+		goto CLEANUP;
+	}
+
 	rval = EGLPNUM_TYPENAME_ILLlib_recompute_rownorms (p->lp, p->pricing);
 	CHECKRVALG (rval, CLEANUP);
 
